@@ -224,6 +224,15 @@ theorem autoflush_core_eq_flush_then_core (c : Cfg) (haf : c.af = true) (st st1 
   have : coreFlushOn c .on = true := by simp [coreFlushOn, haf]
   simp only [this, afStep, if_true, h]
 
+/-- a legacy `Query` made of Table columns / SQL functions only (no ORM entity) -/
+theorem autoflush_legacy_eq_flush_then_legacy (c : Cfg) (haf : c.af = true) (st st1 : St) (q : Q)
+    (h : doFlush c st = some st1) :
+    step c st (.legacy q .on) = step c st1 (.legacy q .on) ∧
+    step c st (.legacyCount q .on) = step c st1 (.legacyCount q .on) := by
+  have h2 := afStep_after_flush c (autoflushOn c .on) st st1 h
+  simp only [step, h2]
+  simp only [autoflushOn, haf, afStep, Bool.true_and, beq_self_eq_true, if_true, h, and_self]
+
 /-- lazy load of `P.children` on a persistent, not deleted parent -/
 theorem autoflush_children_eq_flush_then_children (c : Cfg) (haf : c.af = true) (st st1 : St) (p : Nat)
     (o o1 : Obj) (ho : st.objs ⟨0, p⟩ = some o) (hd : o.del = false)
